@@ -87,6 +87,58 @@ def crowd(chains, rng, prob, many=False):
     return out
 
 
+def polar_h_sites(residue, first):
+    """Template positions of the hydrogens on N / O / S donors: backbone H, the amine hydrogens H2 / H3 of an
+    N-terminal residue (NTERM patch), side-chain OH / NH / SH hydrogens."""
+    base = topo.base_of(residue["resn"])
+    if base is None:
+        return []
+    have = dict(residue["atoms"])
+    if not all(k in have for k in ("N", "CA", "C")):
+        return []
+    d = topo.expected_def(base, ["NTERM"] if first else [])
+    from ..ref.rigid import kabsch
+    R, t = kabsch(np.array([d.atoms[k]["xyz"] for k in ("N", "CA", "C")]), np.array([have[k] for k in ("N", "CA", "C")]))
+    out = []
+    for n, a in d.atoms.items():
+        if n.startswith("H") and any(b[0] in "NOS" for b in a["bonds"] if b in d.atoms):
+            out.append((n, R @ np.array(a["xyz"]) + t))
+    return out
+
+
+def carbon_obstacles(chains, rng, prob, limit=3):
+    """Single complete ALA residues (own chains) whose CB sits 0.9-1.3 A from the site of a *polar* hydrogen that will
+    be built (backbone H, N-terminal H2/H3, hydroxyl / amine hydrogens): a carbon is no hydrogen-bond acceptor, so
+    the debumper sees a clash there (an obstacle water would count as a hydrogen bond)."""
+    heavy = [x for ch in chains for r in ch for n, x in r["atoms"] if not n.startswith("H")]
+    out = []
+    for ch in chains:
+        for k, r in enumerate(ch):
+            if len(out) >= limit or r["kind"] != "aa" or rng.random() > prob:
+                continue
+            sites = polar_h_sites(r, first=(k == 0))
+            if not sites:
+                continue
+            # N-terminal amine hydrogens first when present
+            sites.sort(key=lambda s_: 0 if s_[0] in ("H2", "H3") else 1)
+            _n, hpos = sites[0] if rng.random() < 0.6 else rng.choice(sites)
+            for _try in range(30):
+                d = np.array([rng.gauss(0, 1) for _ in range(3)])
+                o = hpos + d / np.linalg.norm(d) * rng.uniform(0.9, 1.3)
+                ala = S.peptide(["ALA"], rng, hydrogens="none", cterm_oxt=True)
+                from ..ref.rigid import random_rotation
+                S.transform(ala, random_rotation(rng), np.zeros(3))
+                cb = dict(ala[0]["atoms"])["CB"]
+                S.transform(ala, np.eye(3), o - cb)
+                pts = np.array([x for n, x in ala[0]["atoms"]])
+                allh = np.array(heavy + [x for a2 in out for n, x in a2[0]["atoms"]])
+                dmin = np.min(np.linalg.norm(allh[None, :, :] - pts[:, None, :], axis=2))
+                if dmin >= 2.2:
+                    out.append(ala)
+                    break
+    return out
+
+
 def synth(spec):
     rng = random.Random(spec["seed"])
     ff = spec["ff"]
@@ -140,11 +192,15 @@ def synth(spec):
             if np.min(np.linalg.norm(allpts - o, axis=1)) > 2.5:
                 wat.append(w)
                 break
+    obst = carbon_obstacles([c for c, k in zip(chains, kinds) if k == "aa"], rng, p["carbon_obstacle_prob"]) \
+        if p.get("carbon_obstacle_prob") else []
     entries = []
     ids = list(CHAIN_IDS[:nch])
     for c, ch in enumerate(chains):
         start = rng.choice([1, 1, 5, 100, -3, 995]) if p.get("numbering", True) else 1
         entries.append({"id": ids[c], "start": start, "residues": ch})
+    for k, ala in enumerate(obst):
+        entries.append({"id": CHAIN_IDS[nch + k], "start": 900 + k, "residues": ala})
     if wat:
         how = rng.choice(["own_chain", "blank_chain", "last_chain"])
         if how == "own_chain":
